@@ -115,4 +115,8 @@ class PatternWaiter(asyncio.Protocol):
             # We may get here without eof_received being called, e.g on Linux
             self.eof_received()
         elif exc is not None:
+            # Any other read error ends the call like an exception out of
+            # read_nonblocking() ends the blocking call: 'before' holds the
+            # pending text, 'after' and 'match' are reset.
+            self.expecter.errored()
             self.error(exc)
